@@ -122,17 +122,28 @@ func runC07(c *Ctx) {
 	var signK *ana.Term
 	if f := c.fn("pkg/ed25519", "Sign"); f != nil {
 		b := ana.NewBuilder(c.P, f.Function)
-		helper, hb := followOutBuf(c, "C07.sign-flow", f.Function, b, "obj(alloc<[64]byte>, call<*>(slice(self, 0, 64), p0, p1))", "slice($O, 0, alt(none, 64))")
+		// (the helper may be handed the private key, or its two halves)
+		helper, hb := followOutBuf(c, "C07.sign-flow", f.Function, b, "obj(alloc<[64]byte>, alt(call<*>(slice(self, 0, 64), p0, p1), call<*>(slice(self, 0, 64), slice(p0, 0, 32), slice(p0, 32, alt(none, 64)), p1)))", "slice($O, 0, alt(none, 64))")
 		if helper != nil {
 			c.R.Fn(ana.ShortFunc(helper))
-			seedPat := strings.Replace(patSHA512Seed, "$seed", "slice(p1, 0, 32)", 1)
+			// the helper is analysed from its call in Sign, parameters bound to the arguments: the rule is stated in Sign's
+			// vocabulary (privateKey = p0, message = p1), whatever pieces of the key the helper is handed
+			for _, ci := range ana.Calls(f.Function) {
+				if ana.StaticRepoCallee(ci.Common()) == helper {
+					if call := stripObj(b.CallTermAt(ci)); call != nil && call.Op == "call" && len(call.Args) == len(helper.Params) {
+						hb = c.boundBuilder(call)
+					}
+				}
+			}
+			seedPat := strings.Replace(patSHA512Seed, "$seed", "slice(p0, 0, 32)", 1)
 			sPat := "obj(call<ed.NewScalar>, call<(*ed.Scalar).SetBytesWithClamping>(self, slice(" + seedPat + ", 0, 32)))"
-			rPat := strings.Replace(patUniform, "$H", "obj(call<crypto/sha512.New>, call<(hash.Hash).Write>(self, slice("+seedPat+", 32, none)), call<(hash.Hash).Write>(self, p2))", 1)
+			rPat := strings.Replace(patUniform, "$H", "obj(call<crypto/sha512.New>, call<(hash.Hash).Write>(self, slice("+seedPat+", 32, none)), call<(hash.Hash).Write>(self, p1))", 1)
 			RPat := "obj(_, call<(*ed.Point).ScalarBaseMult>(self, " + rPat + "))"
-			kPat := strings.Replace(patUniform, "$H", "obj(call<crypto/sha512.New>, call<(hash.Hash).Write>(self, call<(*ed.Point).Bytes>("+RPat+")), call<(hash.Hash).Write>(self, slice(p1, 32, none)), call<(hash.Hash).Write>(self, p2))", 1)
+			kPat := strings.Replace(patUniform, "$H", "obj(call<crypto/sha512.New>, call<(hash.Hash).Write>(self, call<(*ed.Point).Bytes>("+RPat+")), call<(hash.Hash).Write>(self, slice(p0, 32, none)), call<(hash.Hash).Write>(self, p1))", 1)
 			SPat := "obj(call<ed.NewScalar>, call<(*ed.Scalar).MultiplyAdd>(self, " + kPat + ", " + sPat + ", " + rPat + "))"
-			full := "obj(p0, call<builtin.copy>(slice(self, 0, 32), call<(*ed.Point).Bytes>(" + RPat + ")), call<builtin.copy>(slice(self, 32, none), call<(*ed.Scalar).Bytes>(" + SPat + ")))"
-			checkPanicsClosed(c, "C07.sign-flow.panic-closed", helper, hb, "bin<!=>(len(p1), 64)",
+			full := "obj(slice(alloc<[64]byte>, 0, alt(none, 64)), call<builtin.copy>(slice(self, 0, 32), call<(*ed.Point).Bytes>(" + RPat + ")), call<builtin.copy>(slice(self, 32, none), call<(*ed.Scalar).Bytes>(" + SPat + ")))"
+			checkPanicsClosed(c, "C07.sign-flow.panic-closed", f.Function, b, "bin<!=>(len(p0), 64)")
+			checkPanicsClosed(c, "C07.sign-flow.panic-closed", helper, hb, "bin<!=>(len(p0), 64)",
 				"bin<!=>(ext#1("+sPat+"), nil)", "bin<!=>(ext#1("+rPat+"), nil)", "bin<!=>(ext#1("+kPat+"), nil)")
 			nret := 0
 			for _, e := range ana.Exits(helper) {
@@ -149,8 +160,8 @@ func runC07(c *Ctx) {
 				diagnoseSign(c, st, pos(e.Instr), RPat, SPat, kPat, rPat, sPat)
 			}
 			r.Floor("C07.floor.sign-returns", nret, 1, "returns of the signing helper")
-			es := edgesMatching(hb, "bin<==>(len(p1), 64)")
-			r.Check(len(es) > 0, "C07.sign-flow.len-guard", c.P.Pos(helper.Pos()), "length test len(privateKey)==64 present")
+			es := append(edgesMatching(hb, "bin<==>(len(p0), 64)"), edgesMatching(b, "bin<==>(len(p0), 64)")...)
+			r.Check(len(es) > 0, "C07.sign-flow.len-guard", c.P.Pos(helper.Pos()), "length test len(privateKey)==64 present (in Sign or in the helper)")
 			// extract sign's k-hash roles for the sibling rule
 			for _, e := range ana.Exits(helper) {
 				if !e.Panic {
@@ -177,8 +188,8 @@ func runC07(c *Ctx) {
 			// roles: 0 = R bytes, 1 = public key bytes, 2 = message (a whole parameter)
 			_, sR := ana.Match("call<(*ed.Point).Bytes>(_)", sw[0])
 			_, vR := ana.Match("slice(p2, 0, 32)", vw[0])
-			_, sA := ana.Match("slice(p1, 32, none)", sw[1])
-			ok = sR && vR && sA && vw[1].IsParam(0) && sw[2].IsParam(2) && vw[2].IsParam(1)
+			_, sA := ana.Match("slice(p0, 32, none)", sw[1])
+			ok = sR && vR && sA && vw[1].IsParam(0) && sw[2].IsParam(1) && vw[2].IsParam(1)
 		}
 		r.Check(ok, "C07.sibling-k.layout", c.P.Pos(vf.Pos()), "sign hashes (R.Bytes(), privateKey[32:], message), Verify hashes (sig[:32], publicKey, message): same roles position by position (sign=%d writes, verify=%d writes)", len(sw), len(vw))
 	} else if signK == nil {
